@@ -8,7 +8,14 @@ CFG = {
                           "RpmVerif.C02.tamper_rejected_verifier", "RpmVerif.C02.tamper_rejected_payload",
                           "RpmVerif.C02.tamper_rejected_pgp_payload", "RpmVerif.C02.model_satisfies_spec",
                           "RpmVerif.C02.pgp_verifier_sound", "RpmVerif.C02.old_verifier_repeated_issuer_witness",
-                          "RpmVerif.C02.old_verifier_same_id_subkeys_witness"],
+                          "RpmVerif.C02.old_verifier_same_id_subkeys_witness",
+                          "RpmVerif.C02.parse_none_iff", "RpmVerif.C02.parse_some_iff", "RpmVerif.C02.parse_of_single_packet",
+                          "RpmVerif.C02.leading_packet_skipped", "RpmVerif.C02.trailing_packets_ignored", "RpmVerif.C02.trailing_bytes_ignored",
+                          "RpmVerif.C02.trailing_garbage_refused", "RpmVerif.C02.trailing_packets_witness",
+                          "RpmVerif.C02.pgp_verifier_sound_parsed", "RpmVerif.C02.pgp_verifier_no_signature",
+                          "RpmVerif.C02.pgp_verifier_ignores_trailing", "RpmVerif.C02.pgp_verifier_parsed_eq",
+                          "RpmVerif.C02.issuerOk_of_single_packet", "RpmVerif.C02.builderTag_of_single_packet",
+                          "RpmVerif.C02.scheme_ignores_trailing"],
     "trivial_branches": ["orig", "orig-parse-err"],
     "rule": "(a) recording implementation of the public Verifying trait (scripted accept/reject pattern: i-th consult accepted iff bit i; logs "
             "length+FNV of the data read to the end, length+FNV of the signature, verdict) on hand-encoded packages (pkggen: 3+ main-header "
@@ -28,7 +35,15 @@ CFG = {
             "bit flips, delete, insert, truncate, append; quick 254, thorough 4004 per key). (c) regression cases for fix c25de51: hand-made packages "
             "whose only OPENPGP signature was made by the test key's subkey / primary key over the header or over the EMPTY message, issuer id listed "
             "once or twice (a signature over the empty message must give an error: fails:unsigned-header-accepted otherwise). Non-trivial = everything except the five unmodified "
-            "packages; distinct = distinct request lines. Verdicts: vsig err = holds (the text restricts success only), vsig ok = judged by "
+            "packages; distinct = distinct request lines. (d) Verifier::parse_signature (sigpkts): for each of the 5 keys a hand-made package whose signature blob is a "
+            "SEQUENCE of OpenPGP packets around real signatures made over its header — [junk][sig], [garbage in a signature frame][sig], [sig][sig by another key] "
+            "and the reverse, [sig over the empty message][sig], sig followed by trailing packets / a second signature / unframed bytes / a truncated or "
+            "oversize packet, truncated sig, no signature at all, the signature re-framed with every length format (old 1/2/4 octets, indeterminate, new "
+            "1/2/5 octets; indeterminate swallowing what follows), subkey signatures — placed as the OPENPGP base64 entry (also as the first of two "
+            "entries) or as the binary RSA / DSA tag; observed: signature_key_ids(), verify_signature(real Verifier), and the legacy tag "
+            "SignatureHeaderBuilder::build files the blob under. The pgp crate is the model's abstract per-packet parser: the harness asks it about each "
+            "single packet directly (signature? issuers, algorithm, which keys of the certificate accept it over the header) and the model must predict "
+            "all three observations from its own framing + first-signature rule. Verdicts: vsig err = holds (the text restricts success only), vsig ok = judged by "
             "VerifySpec.successAllowed; flips/edits: parsed (header bytes, content) changed inside the header/payload regions => must not be ok; "
             "dontcare = edited bytes do not parse, nothing parsed changed, or the edit lies outside the header/payload regions.",
     "exhaustive": True,
@@ -39,7 +54,9 @@ CFG = {
                      "theorem (any verifier, even stateful); exercised with 5 real keys, not verified",
                      "pgp's Base64Decoder/Base64Reader: abstract parameter b64 of the model; its results are fed to the driver by the harness",
                      "sha2 / sha1 / md-5 crates: parameters (any functions); the tamper corollaries carry NoCollision for the two byte strings at hand",
-                     "the header/package parser model of C01 and the digest model of C03 (reused)"],
+                     "the header/package parser model of C01 and the digest model of C03 (reused)",
+                     "Verifier::parse_signature: the pgp crate's packet parser is a PARAMETER (Bytes -> Option sig, one packet at a time); the framing and "
+                     "the first-signature rule around it are modelled (Model/PgpFraming.lean) and proved for every parser"],
     "assumptions": COMMON_ASSUME + [
         "tamper_rejected holds under NoCollision sha256 (the two serialised headers / payloads at hand) OR Binds (the verifier accepts each signature "
         "of the good run only for the data it was accepted with there); both are explicit hypotheses of the theorems",
@@ -59,7 +76,16 @@ CFG = {
                   "passes the observer-level spec applied to the implementation (model_satisfies_spec). rpm-rs's own Verifier::verify: success => "
                   "a key selected by the signature's issuer ids (the primary key when there is none) cryptographically accepted the FULL data "
                   "(pgp_verifier_sound, full statement); old_verifier_*_witness: the code before c25de51 accepted a subkey signature over the "
-                  "empty message for any data. Model tied to the code by the recording-verifier differential run (result class + full consult log "
+                  "empty message for any data. Verifier::parse_signature (framing -> first packet the pgp parser returns as a signature; any parser, any blob): "
+                  "NoSignatureFound exactly when the framing is broken or no packet parses (parse_none_iff); the result is the first parsable packet's "
+                  "signature whatever follows (parse_some_iff, trailing_packets_ignored / trailing_bytes_ignored with trailing_packets_witness: bytes "
+                  "behind the first signature packet are never parsed nor authenticated; trailing_garbage_refused: they must still be well framed); "
+                  "leading non-signature packets are skipped silently (leading_packet_skipped); a one-packet blob yields its signature "
+                  "(parse_of_single_packet, which reduces C10's IssuerOk hypothesis to single-packet facts: issuerOk_of_single_packet; "
+                  "builderTag_of_single_packet for SignatureHeaderBuilder::build); success of Verifier::verify => the FIRST parsable packet's signature "
+                  "was accepted by a selected key over the full data (pgp_verifier_sound_parsed), same verdict for blobs that agree up to that packet "
+                  "(pgp_verifier_ignores_trailing), and the packet-level model equals the blob-level one at issuers := parseSignature.map issuers "
+                  "(pgp_verifier_parsed_eq). Model tied to the code by the recording-verifier differential run (result class + full consult log "
                   "compared) and by the real verifier on bit flips / edits of library-signed packages.",
     "level_note": "Trusted: Lean kernel; fidelity of the hand model as exercised; pgp crate, base64 decoder and hash crates are parameters / exercised.",
 }
